@@ -2,6 +2,7 @@ SPECIFICATION TSpec
 CONSTANTS NNodes = 1
  MaxMut = 1
  PairStride = 1
+ LexStride = 1
  Seed = 1
  SparseNodes = 1
  SparseOps = {}
